@@ -120,6 +120,25 @@ RECURSIVE JoinStr(_, _)
 JoinStr(ss, sep) == IF ss = <<>> THEN "" ELSE IF Len(ss) = 1 THEN ss[1]
                     ELSE ss[1] \o sep \o JoinStr(Tail(ss), sep)
 BoolStr(b) == IF b THEN "TRUE" ELSE "FALSE"
+\* "{:.3}" of a float: exact (round half to even on the exact value) for non-finite values, zeros and
+\* small dyadics; other floats are not modelled ("not printable")
+FPrintable(b) == ~FIsFinite(b) \/ FIsZero(b) \/
+                 LET d == FDecode(b) IN d.m < 4096 /\ d.e >= -20 /\ (d.e <= 0 \/ BitLen(d.m) + d.e <= 20)
+Pad3(n) == IF n < 10 THEN "00" \o ToString(n) ELSE IF n < 100 THEN "0" \o ToString(n) ELSE ToString(n)
+PrintFloat(b) ==
+  IF FIsNaN(b) THEN "NaN"
+  ELSE IF FIsInf(b) THEN (IF FNegBit(b) THEN "-inf" ELSE "inf")
+  ELSE LET sign == IF FNegBit(b) THEN "-" ELSE "" IN
+       IF FIsZero(b) THEN sign \o "0.000"
+       ELSE LET d == FDecode(b) IN
+            IF d.e >= 0 THEN sign \o ToString(d.m * 2^d.e) \o ".000"
+            ELSE LET k == -d.e
+                     num == d.m * 1000
+                     q == num \div 2^k
+                     r == num % 2^k
+                     half == 2^(k - 1)
+                     n == IF r > half \/ (r = half /\ q % 2 = 1) THEN q + 1 ELSE q
+                 IN sign \o ToString(n \div 1000) \o "." \o Pad3(n % 1000)
 RECURSIVE PrintItem(_)
 PrintItem(t) ==
   CASE t.k = "int"  -> ToString(t.v)
@@ -128,6 +147,8 @@ PrintItem(t) ==
     [] t.k = "list" -> "( " \o JoinStr([i \in 1..Len(t.v) |-> PrintItem(t.v[i])], " ") \o " )"
     [] t.k = "bvec" -> "[" \o JoinStr([i \in 1..Len(t.v) |-> BoolStr(t.v[i])], ",") \o "]"
     [] t.k = "ivec" -> "[" \o JoinStr([i \in 1..Len(t.v) |-> ToString(t.v[i])], ",") \o "]"
+    [] t.k = "float" -> PrintFloat(t.v)
+    [] t.k = "fvec" -> "[" \o JoinStr([i \in 1..Len(t.v) |-> PrintFloat(t.v[i])], ",") \o "]"
     [] OTHER -> "?"
 \* a whole stack of items, top first, blank separated
 PrintItems(stk) == JoinStr([i \in 1..Len(stk) |-> PrintItem(stk[i])], " ")
@@ -138,9 +159,15 @@ HasSpace(str, i) == IF i > Len(str) THEN FALSE
 LowerCase == {"a","b","c","d","e","f","g","h","i","j","k","l","m","n","o","p","q","r","s","t","u","v","w","x","y","z"}
 \* a name that cannot be confused with the printed form of any other kind of token
 PlainName(n) == Len(n) > 0 /\ SubSeq(n, 1, 1) \in LowerCase /\ ~HasSpace(n, 1)
+\* print-fuzzy: the item contains something whose printed form the specification does not model
 Fuzzy(t) == \E i \in 1..Len(Points(t)) :
               LET p == Points(t)[i] IN
-              \/ p.k \in {"float", "fvec", "graph", "index"}
+              \/ p.k \in {"graph", "index"}
+              \/ (p.k = "float" /\ ~FPrintable(p.v))
+              \/ (p.k = "fvec" /\ \E j \in 1..Len(p.v) : ~FPrintable(p.v[j]))
               \/ (p.k = "id" /\ ~PlainName(p.v))
               \/ (p.k = "ins" /\ HasSpace(p.v, 1))
+\* structure-fuzzy: the item contains values whose equality the specification does not model
+StructFuzzy(t) == \E i \in 1..Len(Points(t)) : Points(t)[i].k \in {"graph", "index"}
+HasFloat(t) == \E i \in 1..Len(Points(t)) : Points(t)[i].k \in {"float", "fvec"}
 =============================================================================
